@@ -633,3 +633,77 @@ Lemma shutdown_clears_detector cancelled st h t :
   drun st (h ++ map (fun m => (t, EMsg m)) (cleanup cancelled)) = [] /\
   forall k, tracked k (drun st (h ++ map (fun m => (t, EMsg m)) (cleanup cancelled))) = false.
 Proof. rewrite drun_app. cbn. split; reflexivity. Qed.
+
+(* ================================================================== publication over a connection that may break *)
+Lemma publish_only_copies a : forall sc m x, In x (publish a sc m) -> x = m.
+Proof.
+  induction a as [|a IH]; intros sc m x; cbn [publish]; [intros []|].
+  destruct sc as [|[] r]; cbn [In]; intros H.
+  - destruct H as [H|[]]; auto.
+  - eauto.
+  - destruct H as [H|H]; [auto|eauto].
+  - destruct H.
+Qed.
+
+Lemma publish_survivable a : forall sc m, survivable a sc = true -> In m (publish a sc m).
+Proof.
+  induction a as [|a IH]; intros sc m; cbn [publish survivable]; [discriminate|].
+  destruct sc as [|[] r]; intros H; try discriminate.
+  - left; reflexivity.
+  - apply IH; exact H.
+  - left; reflexivity.
+Qed.
+
+(* with as many connection losses as the client makes attempts nothing is delivered *)
+Lemma publish_lost a : forall sc m,
+  Forall (fun f => f = FLostBefore) sc -> (a <= length sc)%nat -> publish a sc m = [].
+Proof.
+  induction a as [|a IH]; intros sc m F L; cbn [publish]; [reflexivity|].
+  destruct sc as [|f r]; [cbn in L; lia|]. inversion F; subst. apply IH; [assumption|]. cbn in L. lia.
+Qed.
+
+Lemma add_or_update_idem k e m : add_or_update k e (add_or_update k e m) = add_or_update k e m.
+Proof.
+  induction m as [|[k' v] m IH]; cbn [add_or_update].
+  - rewrite dkey_eqb_refl. rewrite N.max_id. reflexivity.
+  - destruct (dkey_eqb k' k) eqn:E; cbn [add_or_update]; rewrite E.
+    + assert (X : N.max (N.max v e) e = N.max v e) by lia. rewrite X. reflexivity.
+    + rewrite IH. reflexivity.
+Qed.
+
+(* New, Update, Clear (and everything the detector ignores) are idempotent: a second copy of a message
+   processed at the same clock reading changes nothing *)
+Lemma detector_step_idem now st m : detector_step now (detector_step now st m) m = detector_step now st m.
+Proof.
+  unfold detector_step. destruct (handle_s2d m); cbn [apply_effect];
+    [apply add_or_update_idem|reflexivity|reflexivity].
+Qed.
+
+Lemma deliver_copies now m : forall l st, l <> [] -> (forall x, In x l -> x = m) ->
+  deliver now st l = detector_step now st m.
+Proof.
+  induction l as [|x r IH]; intros st NE A; [congruence|].
+  assert (x = m) by (apply A; left; reflexivity). subst x.
+  unfold deliver. cbn [fold_left]. destruct r as [|y r'] eqn:R; [reflexivity|].
+  change (fold_left (detector_step now) (y :: r') (detector_step now st m))
+    with (deliver now (detector_step now st m) (y :: r')).
+  rewrite IH; [apply detector_step_idem|discriminate|intros z I; apply A; right; exact I].
+Qed.
+
+(* a publication hit by fewer transient faults than the client makes attempts leaves the detector exactly
+   where a fault-free publication leaves it *)
+Lemma faulty_publication_equals_clean a sc m now st :
+  survivable a sc = true -> deliver now st (publish a sc m) = detector_step now st m.
+Proof.
+  intros H. apply deliver_copies.
+  - intros E. pose proof (publish_survivable a sc m H) as I. rewrite E in I. destruct I.
+  - apply publish_only_copies.
+Qed.
+
+Lemma clear_survives_faults attempts sc cancelled now st :
+  survivable attempts sc = true ->
+  deliver now st (flat_map (publish attempts sc) (cleanup cancelled)) = [].
+Proof.
+  intros H. unfold cleanup. cbn [flat_map]. rewrite app_nil_r.
+  rewrite (faulty_publication_equals_clean _ _ _ _ _ H). reflexivity.
+Qed.
